@@ -13,6 +13,8 @@ ty    : ("b", "int") | ("n", pkg, name, under) | ("p", ty) | ("s", ty) | ("o", "
 Every case is a scratch sub-tree with a `src` and a `dest` package; the fixed helper types (Kind, Sub, Item, Dec ...)
 are declared in `types.go` of both packages and get their own `shoot map` run.
 """
+import re
+
 from .sexp import Q, dump
 
 # ------------------------------------------------------------------------------------------------
@@ -498,7 +500,7 @@ class MapGen:
         r = self.rng
         kinds = o.get("kinds") or (["same"] * 5 + ["conv"] * 3 + ["func"] * 3 + ["sub"] * 2 + ["each"] * 2 + ["none"] * 2 +
                                    ["misconv", "oneway"])
-        names = o.get("names") or (["ident"] * 6 + ["acronym"] * 2 + ["caseonly", "tag", "tag", "skip"])
+        names = o.get("names") or (["ident"] * 12 + ["acronym"] * 4 + ["caseonly"] * 2 + ["tag"] * 3 + ["skip"] * 2 + ["tagsnake"])
         lo, hi = o.get("n", (2, 6))
         flags = {"way": self.pick(["both"] * 6 + ["to", "from"]), "i": r.random() < o.get("i", 0.2),
                  "alias": self.pick(["", "", "", "domain", "tgt"])}
@@ -530,7 +532,7 @@ class MapGen:
             r.shuffle(pools[k])
 
         def fresh_names(nk):
-            key = "tag" if nk == "tagpascal" else nk
+            key = "tag" if nk in ("tagpascal", "tagsnake") else nk
             if nk not in ("ident", "skip") and not pools[key]:
                 nk = "ident"
             if nk in ("ident", "skip"):
@@ -539,7 +541,7 @@ class MapGen:
             if nk == "acronym" and r.random() < 0.25:
                 n = pools["acronym"].pop()[0]
                 return n, n
-            return pools["tag" if nk == "tagpascal" else nk].pop()
+            return pools[key].pop()
 
         def place(paths, deep_bias):
             if len(paths) == 1 or r.random() > deep_bias:
@@ -563,13 +565,19 @@ class MapGen:
                 tag = dn
             elif nk == "tagpascal":
                 tag = dn[:1].lower() + dn[1:]
+            elif nk == "tagsnake":
+                tag = re.sub(r"(?<!^)([A-Z])", r"_\1", dn).lower()      # OrderTime -> order_time (the tool Pascal-cases tags)
             elif nk == "skip":
                 tag = "-"
             sp, dp = place(spaths, o.get("deep", 0.5)), place(dpaths, o.get("deep", 0.5))
             if tag is not None and sp != ():
                 sp = ()          # tags are read at the top level only
-            sfields[sp].append(F(sn, a, tag))
-            dfields[dp].append(F(dn, b))
+            if tag == "-" and r.random() < 0.5:
+                sfields[sp].append(F(sn, a))
+                dfields[()].append(F(dn, b, "-"))      # `map:"-"` on the destination side
+            else:
+                sfields[sp].append(F(sn, a, tag))
+                dfields[dp].append(F(dn, b))
             if (kind == "func" or (kind in ("conv", "same", "sub") and r.random() < o.get("func_over", 0.15))) and not (
                     elem_struct(a) or elem_struct(b)):
                 way = r.random()
@@ -726,6 +734,77 @@ WITNESSES = {
         ("F_ctorTag", mk_spec([F("caption", STR, "Title", get=True)], [F("Title", STR)], way="from", src_kind="new")),
     ],
 }
+
+
+ZERO = re.compile(r'^(0|""|nil|false|[\w.\[\]*]+\{\})$')
+
+
+def writes_of(src_text, recv_var, typ_fields):
+    """count, per written leaf, how often the method body writes it: a non-zero constructor argument (the trailing
+    comment names the field path), a setter call or an assignment"""
+    out = {}
+    for line in src_text.splitlines():
+        ln = line.strip()
+        m = re.match(r"^(.*),\s+//([\w.]+)\s*$", ln)
+        if m:
+            if not ZERO.match(m.group(1).strip()):
+                key = m.group(2).split(".")[-1]
+                out[key] = out.get(key, 0) + 1
+            continue
+        m = re.match(r"^%s\.Set(\w+)\(" % re.escape(recv_var), ln)
+        if m:
+            leaf = typ_fields.get(m.group(1))
+            if leaf:
+                out[leaf] = out.get(leaf, 0) + 1
+            continue
+        m = re.match(r"^%s\.(\w+) = " % re.escape(recv_var), ln)
+        if m:
+            out[m.group(1)] = out.get(m.group(1), 0) + 1
+    return out
+
+
+def method_bodies(text):
+    """split the generated file into the bodies of ToX and FromX"""
+    to = re.search(r"\nfunc \(\w+ \*\w+\) To\w+\(\) .*?\n}\n", text, re.S)
+    frm = re.search(r"\nfunc \(\w+ \*\w+\) From\w+\(.*?\n}\n", text, re.S)
+    return (to.group(0) if to else ""), (frm.group(0) if frm else "")
+
+
+def pascal(n):
+    return "".join(p[:1].upper() + p[1:] for p in n.split("_") if p)
+
+
+def leaf_of_accessor(st):
+    """Pascal-cased accessor stem -> field name, for a flat accessor-mode struct"""
+    return {pascal(m["name"]): m["name"] for m in st["members"] if m["k"] == "f"}
+
+
+def text_writes(sp, text):
+    """`writes:to:<leaf>` / `writes:from:<leaf>`: how often the generated ToX / FromX writes each leaf, read off the text
+    (a selector `x.Name` counts for the shallowest leaf of that name, as Go resolves it)"""
+    out = {}
+    to, frm = method_bodies(text)
+    svar = sp["sname"][:1].lower()
+    dvar = None
+    m = re.search(r"\n\t(\w+_) := ", to) or re.search(r"From\w+\((\w+_) \*", frm)
+    if m:
+        dvar = m.group(1)
+
+    def spread(prefix, st, w):
+        ls = leaves(st)
+        best = {}
+        for p, mm in ls:
+            d = p.count(".")
+            if mm["name"] not in best or d < best[mm["name"]][0]:
+                best[mm["name"]] = (d, p)
+        for p, mm in ls:
+            n = w.get(mm["name"], 0) if best[mm["name"]][1] == p else 0
+            out[prefix + p] = str(n)
+    if to and dvar:
+        spread("writes:to:", sp["dest"], writes_of(to, dvar, leaf_of_accessor(sp["dest"])))
+    if frm:
+        spread("writes:from:", sp["src"], writes_of(frm, svar, leaf_of_accessor(sp["src"])))
+    return out
 
 
 def count_features(spec, feats=None):
